@@ -31,3 +31,8 @@ claim('C10',
 claim('C05',
   'bounded model checking of the real zz units against exact integer values (unsigned __int128 / division-free relations): add/sub/compare family at 16/32/64-bit words, modular add/sub/neg/double/half in both editions for every modulus > 1, word division, Montgomery/Crandall reductions SAFE == FAST and fully reduced at 16-bit words; multiplication/division/Barrett lemmas in the thorough tier (reported UNDECIDED when the solver does not finish)',
   'trusted: CBMC, reference arithmetic of the harness; the 16-bit word configuration is reached through the BEE2_VERIF_WORD hook and run without signed-overflow checks', 'DESIGN.md 3/C05')
+
+claim('C14',
+  'bounded model checking: (a) SAFE edition == FAST edition == documented value for mem/ww/CLZ/CTZ and (shared with C05) the modular and reduction routines; (b) data-independent control flow by self-composition: the program is instrumented with goto-instrument --branch, the routine runs twice with equal lengths and independent arbitrary secrets, and the solver must show the two branch traces identical - for the SAFE mem/ww/zz routines, the belt block cipher, bash-f, and the MAC/HMAC/hash/DWP/CHE/bash verification paths',
+  'C-source (goto program) level only: branches introduced or removed by the optimising compiler are not visible; libc compare functions modelled as early-exit loops; modes run over an uninterpreted cipher (the cipher is traced separately)', 'DESIGN.md 3/C14',
+  'self-composition over goto-instrument --branch traces + SAFE/FAST equivalence, decided by CBMC')
